@@ -1,7 +1,7 @@
 SPECIFICATION Spec
 CONSTANTS
-  NMsgs = 3
-  QosOf <- Q_212
+  NMsgs = 2
+  QosOf <- Q_22
   MaxFaults = 2
   SessionLoss = TRUE
   ClearAfterRequeue = TRUE
